@@ -68,6 +68,8 @@ def cases(draw, tier="quick"):
         # missing one): what it has received up to and after that moment must still be a prefix
         P["closes"] = [[draw(st.integers(0, 1)), draw(st.sampled_from([None, "verifier", "msg", "msg"]))]]
         P["reorder"] = P["reorder"] or draw(st.booleans())
+    # the two applications need not use the same API style
+    P["modes"] = draw(st.sampled_from([None, None, None, ["delegate", "deferred"], ["deferred", "delegate"]]))
     P["w_due"] = draw(st.sampled_from([None, None, 1, 2]))      # eventual-send turns may lag behind the network
     P["gets_lag"] = draw(st.booleans())      # a reader that calls get_message() only after messages have arrived
     n = draw(st.integers(0, 260))
